@@ -4112,6 +4112,9 @@ impl Interpreter {
 
         // Set up environment for execution
         let saved_env = self.env.cheap_clone();
+        // The callee may return (or throw) from inside nested block scopes, whose guards it
+        // then never pops; remember where its guards start so they can all be released
+        let env_guard_depth = self.env_guards.len();
         self.env = func_env;
         self.push_env_guard(func_guard);
 
@@ -4153,8 +4156,9 @@ impl Interpreter {
         #[cfg(tsrun_verif)]
         crate::verif_hooks::nested_exit();
 
-        // Restore environment
-        self.pop_env_guard();
+        // Restore environment (the function's own guard plus any block-scope guards that a
+        // return or an exception from inside nested blocks left on the stack)
+        self.env_guards.truncate(env_guard_depth);
         self.env = saved_env;
         self.call_stack.pop();
 
